@@ -11,6 +11,7 @@ import (
 	"math/rand"
 	"os"
 	"path/filepath"
+	"regexp"
 	"sort"
 	"strconv"
 	"strings"
@@ -330,6 +331,8 @@ func runPair(w *bufio.Writer, id int, seed int64, p Profile) (diffs int) {
 	ea := NewExec(rootA, ca, wa, seed^0x5eed)
 	ea.virtual = true
 	nextSid = 0
+	pairOther = &cb
+	defer func() { pairOther = nil }()
 	var ops []string
 	var obsA [][]string
 	step := func(e *Exec, l string) []string {
@@ -349,7 +352,7 @@ func runPair(w *bufio.Writer, id int, seed int64, p Profile) (diffs int) {
 					sid, _ := strconv.Atoi(t[1])
 					staleSid[sid] = true
 				}
-			case "collect", "one", "len", "sdel":
+			case "collect", "one", "len", "sdel", "expects":
 				sid, _ := strconv.Atoi(t[1])
 				if ea.stale(sid) || staleSid[sid] {
 					staleOps[len(ops)] = true
@@ -578,10 +581,21 @@ func main() {
 			cfg.Cons[i] = "0000"
 		}
 		var ops []string
+		hseed := *seed
 		for _, l := range strings.Split(string(data), "\n") {
 			l = strings.TrimSpace(l)
 			t := strings.Fields(l)
-			if len(t) == 0 || strings.HasPrefix(l, "#") {
+			if strings.HasPrefix(l, "#") {
+				// the header written by the check names the history: its seed also drives the choices the executor
+				// makes on its own (identifiers in upper case, witnesses holding data): same seed, same run
+				if m := regexp.MustCompile(`hist \d+ seed=(\d+)`).FindStringSubmatch(l); m != nil {
+					if v, err := strconv.ParseInt(m[1], 10, 64); err == nil {
+						hseed = v
+					}
+				}
+				continue
+			}
+			if len(t) == 0 {
 				continue
 			}
 			switch t[0] {
@@ -596,7 +610,7 @@ func main() {
 				ops = append(ops, l)
 			}
 		}
-		fails = runHistory(w, 0, *seed, p, ops, &cfg, virtual)
+		fails = runHistory(w, 0, hseed, p, ops, &cfg, virtual)
 	} else {
 		for i := 0; i < *n; i++ {
 			id := *first + i
